@@ -248,6 +248,7 @@ EXC_HIERARCHY = {
     'FileNotFoundError': 'OSError', 'OSError': 'Exception', 'ZeroDivisionError': 'ArithmeticError',
     'ArithmeticError': 'Exception', 'ImportError': 'Exception', 'RuntimeError': 'Exception',
     'NotImplementedError': 'RuntimeError', 'StopIteration': 'Exception', 'UserError': 'Exception',
+    'KeyboardInterrupt': 'BaseException', 'SystemExit': 'BaseException', 'GeneratorExit': 'BaseException',
 }
 
 
